@@ -70,9 +70,126 @@ def oracleC09 (c : Case) : Option (List String) :=
       ++ check "C09.idempotent" (closeQ τ (maxUQ b' u' a) u'))
   | _ => none
 
+/-- binomial opinion at offset: (b, d, u, a) -/
+structure QB where
+  b : Rat
+  d : Rat
+  u : Rat
+  a : Rat
+
+def qbAt (xs : Array Rat) (off : Nat) : QB :=
+  ⟨xs.getD off 0, xs.getD (off + 1) 0, xs.getD (off + 2) 0, xs.getD (off + 3) 0⟩
+
+def QB.wf (δ : Rat) (w : QB) : Bool :=
+  decide (-δ ≤ w.b) && decide (-δ ≤ w.d) && decide (-δ ≤ w.u) && decide (absQ (w.b + w.d + w.u - 1) ≤ δ)
+    && decide (-δ ≤ w.a) && decide (w.a ≤ 1 + δ)
+
+def QB.proj (w : QB) : Rat := w.b + w.a * w.u
+def QB.neg (w : QB) : QB := ⟨w.d, w.b, w.u, 1 - w.a⟩
+def QB.close (τ : Rat) (x y : QB) : Bool :=
+  closeQ τ x.b y.b && closeQ τ x.d y.d && closeQ τ x.u y.u && closeQ τ x.a y.a
+
+/-- run `k` when the implementation produced a finite value; report the class otherwise -/
+def withValue (c : Case) (name : String) (k : Array Rat → List String) : Option (List String) :=
+  if c.cls != "ok" then some [name ++ ".no_value(" ++ c.cls ++ ":" ++ c.label ++ ")"] else
+  match allSome c.out with
+  | none => some [name ++ ".non_finite"]
+  | some out => some (k out)
+
+/-- C12: binomial AND/OR -/
+def oracleC12 (c : Case) : Option (List String) :=
+  match allSome c.inp with
+  | none => none
+  | some xs =>
+  let x := qbAt xs 0
+  let y := qbAt xs 4
+  let τ := tauSpec c.fmt
+  if !(x.wf 0 && y.wf 0) then none else
+  match c.op with
+  | "bmul" =>
+    if x.a = 1 ∧ y.a = 1 then none else
+    withValue c "C12" fun out =>
+      let r := qbAt out 0
+      check "C12.mul_wf" (r.wf (4 * τ))
+        ++ check "C12.mul_base_rate" (closeQ τ r.a (x.a * y.a))
+        ++ check "C12.mul_projection" (closeQ τ r.proj (x.proj * y.proj))
+  | "bcomul" =>
+    if x.a = 0 ∧ y.a = 0 then none else
+    withValue c "C12" fun out =>
+      let r := qbAt out 0
+      check "C12.comul_wf" (r.wf (4 * τ))
+        ++ check "C12.comul_base_rate" (closeQ τ r.a (x.a + y.a - x.a * y.a))
+        ++ check "C12.comul_projection" (closeQ τ r.proj (x.proj + y.proj - x.proj * y.proj))
+  | "blaw" =>
+    let z := qbAt xs 8
+    let kind := c.ints.getD 0 0
+    -- domain of every inner call
+    let okMul (p q : QB) : Bool := !(decide (p.a = 1) && decide (q.a = 1))
+    let okCo (p q : QB) : Bool := !(decide (p.a = 0) && decide (q.a = 0))
+    let dom : Bool := match kind with
+      | 0 => okMul x y
+      | 1 => z.wf 0 && okMul x y && okMul y z && !(decide (x.a * y.a = 1)) && !(decide (y.a * z.a = 1))
+      | 2 => okCo x y
+      | 3 => z.wf 0 && okCo x y && okCo y z
+      | 4 => okMul x y
+      | _ => okCo x y
+    if !dom then none else
+    withValue c "C12" fun out =>
+      let l := qbAt out 0
+      let r := qbAt out 4
+      let nm := match kind with
+        | 0 => "C12.mul_comm" | 1 => "C12.mul_assoc" | 2 => "C12.comul_comm" | 3 => "C12.comul_assoc"
+        | 4 => "C12.de_morgan" | _ => "C12.de_morgan_dual"
+      check nm (QB.close (16 * τ) l r)
+  | _ => none
+
+/-- simplex triple at offset -/
+def triAt (xs : Array Rat) (off : Nat) : Rat × Rat × Rat :=
+  (xs.getD off 0, xs.getD (off + 1) 0, xs.getD (off + 2) 0)
+
+def triWf (t : Rat × Rat × Rat) : Bool :=
+  decide (0 ≤ t.1) && decide (0 ≤ t.2.1) && decide (0 ≤ t.2.2) && decide (t.1 + t.2.1 + t.2.2 = 1)
+
+/-- C14: binomial deduction -/
+def oracleC14 (c : Case) : Option (List String) :=
+  match allSome c.inp with
+  | none => none
+  | some xs =>
+  let x := qbAt xs 0
+  let c0 := triAt xs 4
+  let c1 := triAt xs 7
+  let ay := xs.getD 10 0
+  let τ := tauSpec c.fmt
+  let px := x.proj
+  if !(x.wf 0 && triWf c0 && triWf c1) then none else
+  if !(decide (0 < px) && decide (px < 1) && decide (0 < x.a) && decide (x.a < 1)
+        && decide (0 < ay) && decide (ay < 1)) then none else
+  match c.op with
+  | "bdeduce" =>
+    withValue c "C14" fun out =>
+      let r := qbAt out 0
+      let py0 := c0.1 + ay * c0.2.2
+      let py1 := c1.1 + ay * c1.2.2
+      check "C14.wf" (r.wf (16 * τ))
+        ++ check "C14.base_rate" (closeQ τ r.a ay)
+        ++ check "C14.projection" (closeQ (16 * τ) r.proj (px * py0 + (1 - px) * py1))
+        ++ (if x.u = 0 then
+              check "C14.dogmatic_mixture"
+                (closeQ τ r.b (x.b * c0.1 + x.d * c1.1) && closeQ τ r.d (x.b * c0.2.1 + x.d * c1.2.1)
+                  && closeQ τ r.u (x.b * c0.2.2 + x.d * c1.2.2))
+            else [])
+  | "bdeduce_sym" =>
+    withValue c "C14" fun out =>
+      let l := qbAt out 0
+      let r := qbAt out 4
+      check (if c.ints.getD 0 0 == 0 then "C14.swap_x" else "C14.swap_y") (QB.close (64 * τ) l r)
+  | _ => none
+
 def oracle (c : Case) : Option (List String) :=
   match c.prop with
   | "C09" => oracleC09 c
+  | "C12" => oracleC12 c
+  | "C14" => oracleC14 c
   | _ => none
 
 end SLV.Oracle
